@@ -52,7 +52,10 @@ func parentMain() {
 			"the request->response map against the _RES enum names. dispatcher: seeded op sequences (register / unregister / dispatch / repeat / "+
 			"same header other payload / same payload other log id / invalid input) against a subscription-table model, and free-running rounds of "+
 			"2-8 goroutines doing Register / UnRegister / Dispatch on a fresh dispatcher under -race in child processes, checked offline "+
-			"(registered throughout -> exactly once, overlapping -> at most once, unregistered before -> never). A case is distinct by "+
+			"(registered throughout -> exactly once, overlapping -> at most once, unregistered before -> never). Misbehaving neighbours: healthy "+
+			"subscribers next to channel subscribers with a small channel whose consumer is stuck or drains late, to handlers that fail or are slow, "+
+			"to a stream that refuses responses - fresh messages and repeats (same sender, same id), sequentially and inside the concurrent rounds; "+
+			"a healthy matching subscriber gets each message exactly once and never a repeat, the stuck consumer's own copy is not judged. A case is distinct by "+
 			"(type, option subset, payload class, stage) / (payload class, corruption kind, burst length) / op-kind sequence + subscriber filters / "+
 			"round configuration; non-trivial = non-empty payload, >= 1 corrupted encoding checked, >= 1 delivery and >= 1 filtered-out or dropped "+
 			"dispatch, >= 1 dispatch overlapping a (un)registration.")
@@ -94,6 +97,15 @@ func parentMain() {
 	r.Floor("seq.after_unregister.checked", 50)
 	r.Floor("seq.variant.other_logid.delivered", 20)
 	r.Floor("seq.variant.other_payload.delivered", 20)
+	r.Floor("nb.seq.trials.blocked", 8)
+	r.Floor("nb.seq.full_channel_dispatches", 10)
+	r.Floor("nb.seq.healthy_exactly_once.next_to_full_channel", 10)
+	r.Floor("nb.seq.repeat_after_blocked_neighbour.dropped", 10)
+	r.Floor("nb.seq.repeat_after_failed_neighbour.dropped", 16)
+	r.Floor("nb.conc.rounds.never_drained", 4)
+	r.Floor("nb.conc.rounds.late_drain", 100)
+	r.Floor("nb.conc.healthy_exactly_once.next_to_full_channel", 8)
+	r.Floor("nb.conc.repeat_after_blocked_neighbour.checked", 6)
 	r.Floor("stress.rounds", 50)
 	r.Floor("stress.dispatch_overlapping_churn", 200)
 	r.Floor("stress.newtype_register_overlapping_dispatch", 50)
@@ -106,6 +118,8 @@ func parentMain() {
 	r.Assume("'receiver' = proto.Unmarshal(proto.Marshal(message)) of the XuperMessage envelope followed by p2p.Unmarshal; protobuf itself is trusted")
 	r.Assume("the race detector only reports races on the interleavings that were executed; absence of a report is not absence of a race")
 	r.Assume("a repeat is checked only when the measured monotonic gap to the first dispatch was <= 2 s (window is 3 s of wall clock inside /repo)")
+	r.Assume("misbehaving-neighbour part: the de-duplication window of a message is taken to begin no earlier than the return of the first Dispatch of it (the hand-over may have waited for a slow consumer); a repeat is judged only when it was handed over <= 1 s after that return")
+	r.Assume("a dispatch that meets a full channel may wait as long as the implementation likes (3 s timeout in /repo, never reached there): such dispatches are few by construction and no verdict reads a clock")
 	if !keep {
 		os.RemoveAll(scratch)
 	} else {
